@@ -34,7 +34,7 @@ P = {
          "Scale-down scans over generated creation timestamps (ties, identical, reversed), list orders and failing writes: no node left untainted is strictly older than a tainted one, except nodes with a failed attempt.",
          "4 C08"),
  "C09": ("exploration", "rapid state machine + journal monitor + capacity gauge comparison + metamorphic twin run",
-         "No mutating call targets a node that is cordoned in the scan's view; the capacity gauges equal the exact allocatable sum over untainted uncordoned nodes; a twin world in which a cordoned node's allocatable is changed produces the same actions.",
+         "No mutating call targets a node that is cordoned in the scan's view; the capacity gauges equal the exact allocatable sum over untainted uncordoned nodes; a twin world in which a cordoned node's allocatable is changed produces the same actions; a group whose only nodes in service are cordoned scales up from zero as if they were not there.",
          "4 C09"),
  "C10": ("exploration", "rapid state machine + journal monitor + metamorphic twin run",
          "No removal of a node carrying a non-empty no-delete annotation (unless force-tainted); a twin run without the annotation shows identical tainting/untainting/cloud requests and removed(with) is a superset of removed(without) minus the node.",
@@ -46,7 +46,7 @@ P = {
          "Every write made while a group is processed targets that group's nodes / ASG; a twin world differing only inside another group yields the same journal for this group; non-fatal failures in one group do not stop later groups.",
          "4 C12"),
  "C13": ("exploration", "rapid generated pods/nodes with known exact rationals + permutation metamorphic relation",
-         "Quantities are generated as (mantissa, suffix, decimals) so the exact value is known without asking resource.Quantity; totals are compared with math/big sums, percentages within 1e-12 relative, and every list is permuted (results must be identical). Request gauges are checked after engine scans too.",
+         "Quantities are generated as (mantissa, suffix, decimals) so the exact value is known without asking resource.Quantity; totals are compared with math/big sums, percentages within 1e-12 relative, and every list is permuted (results must be identical). Request and capacity gauges are checked after engine scans too, and in scans where cpu and memory alone fall into different bands the decision must follow the larger one.",
          "4 C13"),
  "C14": ("exploration", "exhaustive small-scope enumeration + rapid deeper shapes against an independent predicate + production-wiring round trip",
          "6 000+ pod shapes and 10 node label maps are enumerated completely through the exported filter constructors and the real filtered listers; deeper random shapes beyond. Exhaustive over the stated finite scope only.",
@@ -58,10 +58,10 @@ P = {
          "accepted => every invariant (each invariant evaluated independently of the validator); YAML-decoded = JSON-decoded = source for every documented key, documents larger than the sniff buffer included. Exhaustive over the stated grids only.",
          "4 C16"),
  "C17": ("exploration", "rapid direct calls on the real AWS provider + argument oracle",
-         "IncreaseSize(d) for all boundary relations of (desired, max, d) and fleet sizes around the 20-batch limit: exactly one SetDesiredCapacity(current+d), or one all-or-nothing CreateFleet(d) whose instances are each attached exactly once in calls of <= 20; rejected deltas make no write.",
+         "IncreaseSize(d) for all boundary relations of (desired, max, d) and fleet sizes around the 20-batch limit: exactly one SetDesiredCapacity(current+d), or one all-or-nothing CreateFleet(d) whose instances are each attached exactly once in calls of <= 20 (the simulated EC2 counts capacity in units of the serving override's weight, so d units must be d instances); rejected deltas make no write.",
          "4 C17"),
  "C18": ("fault_enumeration", "enumeration of every single failure point per fleet size + set algebra over recorded arguments",
-         "For each fleet size every failure point (never ready, readiness API failing, k-th attach for every k, optionally with the j-th terminate failing) is executed; attached and submitted-for-termination must partition the acquired instances, each terminate call carries <= 1000 ids, the failure is reported. Engine histories check that no lock is taken after a failed fleet scale-up.",
+         "For each fleet size every failure point (never ready, readiness API failing, k-th attach for every k, optionally with the j-th terminate failing, an answer listing fewer instances than asked for) is executed; attached and submitted-for-termination must partition the acquired instances, each terminate call carries <= 1000 ids, the failure is reported. Engine histories check that no lock is taken after a failed fleet scale-up.",
          "4 C18"),
  "C19": ("fault_enumeration", "rapid direct calls with the k-th terminate failing + exact expected call prefix; history monitor for ordering",
          "DeleteNodes over every ASG state and node list (members, foreign, duplicates, at every position) with the k-th terminate failing: calls are exactly the expected prefix with decrement, refusals make no call, foreign nodes give the typed error; along histories node deletions follow a fully accepted batch and a not-in-group answer ends the scan.",
